@@ -6,6 +6,11 @@ let pr (p, r) = hex_of_z p ^ (if r then "r" else "")
 let bp = function
   | Ok l -> "ok:" ^ String.concat "," (List.map pr l)
   | Err -> "panic"
+let zmap_of_string (s : string) : (z * bool) list =
+  if s = "" then [] else
+  List.map (fun e -> match String.split_on_char ':' e with
+    | [k; v] -> (z_of_hex k, v = "1")
+    | _ -> failwith "bad map entry") (String.split_on_char ',' s)
 let posfn name i n ps bt ls nn tf =
   let f = match name with
     | "nup2OutputPageNr" -> nup2OutputPageNr
@@ -25,6 +30,11 @@ let dispatch fn args = match fn, args with
     bp (getBookletOrdering w64 (z_of_hex nn) (z_of_hex bt) (z_of_hex bd) (bool_of_str ls) (bool_of_str tf) (bool_of_str mf) (z_of_hex fo) (zlist_of_string ps))
   | "pageordering", [nn; bt; bd; ls; tf; ps; n] ->
     bp (getBookletPageOrdering w64 (z_of_hex nn) (z_of_hex bt) (z_of_hex bd) (bool_of_str ls) (bool_of_str tf) (zlist_of_string ps) (z_of_hex n))
+  | "orderingmap", [nn; bt; bd; ls; tf; mf; fo; m] ->
+    bp (getBookletOrderingOfMap w64 (z_of_hex nn) (z_of_hex bt) (z_of_hex bd) (bool_of_str ls) (bool_of_str tf) (bool_of_str mf) (z_of_hex fo) (zmap_of_string m))
+  | "sortsel", [m] -> string_of_zlist (sortSelectedPages (zmap_of_string m))
+  | "nupslotsmap", [nn; m] -> string_of_zlist (nupSlotsOfMap w64 (z_of_hex nn) (zmap_of_string m))
+  | "nuppagesmap", [nn; m] -> hex_of_z (nupOutputPagesOfMap (z_of_hex nn) (zmap_of_string m))
   | "getPageNumber", [ps; n] -> hex_of_z (getPageNumber w64 (zlist_of_string ps) (z_of_hex n) zero false zero false)
   | "get4upPos", [p; l] -> hex_of_z (get4upPos w64 (z_of_hex p) (bool_of_str l) zero false zero false)
   | "nupPageNumber", [i; ps] -> hex_of_z (nupPageNumber w64 (z_of_hex i) (zlist_of_string ps) zero false zero false)
